@@ -80,6 +80,7 @@ VSsetfields(int32 vkey, const char *fields)
     DYN_VWRITELIST *wlist;
     vsinstance_t   *w;
     VDATA          *vs;
+    int             defining  = FALSE; /* TRUE while the write list of an empty vdata is being built */
     int             ret_value = FAIL;
 
     /* check if a NULL field list is passed in, then return with
@@ -129,10 +130,12 @@ VSsetfields(int32 vkey, const char *fields)
                 wlist->isize = wlist->off + ac;
                 wlist->order = wlist->isize + ac;
                 wlist->esize = wlist->order + ac;
-                if ((wlist->name = malloc(sizeof(char *) * (size_t)ac)) == NULL) {
+                if ((wlist->name = calloc((size_t)ac, sizeof(char *))) == NULL) {
                     free(wlist->bptr);
+                    wlist->bptr = NULL;
                     HGOTO_ERROR(DFE_NOSPACE, FAIL);
                 }
+                defining = TRUE; /* from here on a failure must not leave a partial field list behind */
 
                 for (i = 0; i < ac; i++) {
                     found = FALSE;
@@ -141,11 +144,8 @@ VSsetfields(int32 vkey, const char *fields)
                         if (!strcmp(av[i], vs->usym[j].name)) {
                             found = TRUE;
 
-                            if ((wlist->name[wlist->n] = strdup(vs->usym[j].name)) == NULL) {
-                                free(wlist->name);
-                                free(wlist->bptr);
+                            if ((wlist->name[wlist->n] = strdup(vs->usym[j].name)) == NULL)
                                 HGOTO_ERROR(DFE_NOSPACE, FAIL);
-                            }
                             order                  = vs->usym[j].order;
                             wlist->type[wlist->n]  = vs->usym[j].type;
                             wlist->order[wlist->n] = order;
@@ -175,11 +175,8 @@ VSsetfields(int32 vkey, const char *fields)
                             if (!strcmp(av[i], rstab[j].name)) {
                                 found = TRUE;
 
-                                if ((wlist->name[wlist->n] = strdup(rstab[j].name)) == NULL) {
-                                    free(wlist->name);
-                                    free(wlist->bptr);
+                                if ((wlist->name[wlist->n] = strdup(rstab[j].name)) == NULL)
                                     HGOTO_ERROR(DFE_NOSPACE, FAIL);
-                                }
                                 order                  = rstab[j].order;
                                 wlist->type[wlist->n]  = rstab[j].type;
                                 wlist->order[wlist->n] = order;
@@ -207,6 +204,7 @@ VSsetfields(int32 vkey, const char *fields)
                 vs->marked   = TRUE; /* mark vdata as being modified */
                 vs->new_h_sz = TRUE; /* mark vdata header size being changed */
 
+                defining = FALSE;
                 HGOTO_DONE(SUCCEED); /* OK */
             }                        /* if wlist->n == 0 */
         }                            /* writing to empty vdata */
@@ -242,6 +240,17 @@ VSsetfields(int32 vkey, const char *fields)
     } /* setting read list */
 
 done:
+    if (defining) { /* refused while building the write list: undo it, the vdata still has no fields */
+        wlist = &(vs->wlist);
+        for (i = 0; i < ac; i++)
+            free(wlist->name[i]);
+        free(wlist->name);
+        free(wlist->bptr);
+        wlist->name   = NULL;
+        wlist->bptr   = NULL;
+        wlist->n      = 0;
+        wlist->ivsize = 0;
+    }
     return ret_value;
 } /* VSsetfields */
 
